@@ -651,6 +651,8 @@ def _m_clear(eng, recv, args, kwargs):
 
 
 def _m_copy(eng, recv, args, kwargs):
+    if hasattr(recv, "__pyvc_copy__"):  # extension containers (pyvc/ext_*.py) copy themselves
+        return recv.__pyvc_copy__(eng)
     if isinstance(recv, PList):
         c = PList()
         c.proto = recv.proto
